@@ -30,6 +30,7 @@ BEExplains(cfg, s, c, r) ==
            /\ r.blocks = BlocksFor(Len(s), RealB, cfg.w)
            /\ r.iter = s
            /\ r.gets = s \o <<-1, -1>>
+           /\ r.huge_nones = 6                    \* six reads at indices up to usize::MAX: all None
       [] OTHER -> FALSE
 BEAfter(cfg, s, c) ==
     CASE c.op = "push"        -> Append(s, Masked(c.a.v, cfg.w))
